@@ -83,7 +83,7 @@ def _contributions(scen, system, spring, grav=True):
     if scen == "rb_pend":
         b = _rb(1.3, (0.06, 0.09, 0.12), Q @ [0.7, 0.0, 0.0], pg, "pend")
         bodies = [b]
-        rest.append(Revolute(O, b, 2, r_OJ0=np.zeros(3), A_IJ0=Q, name="rev"))
+        rest.append(Revolute(O, b, 1, r_OJ0=np.zeros(3), A_IJ0=Q, name="rev"))  # axis Q e_y: nearly horizontal
         gravity(b, 1.3)
         if spring:
             rest += _spring(system, b, [0.5, 0.5, 0.6], [0.1, 0.05, -0.1], 40.0, 0.4)
@@ -169,6 +169,12 @@ def _contributions(scen, system, spring, grav=True):
         gravity(b, 0.9)
         if spring:
             rest += _spring(system, b, [0.6, 0.0, 0.0], [0.0, 0.05, 0.0], 30.0, 0.6)
+    elif scen == "spring_pend":
+        # elastic pendulum: point mass on a force-form spring under gravity, no constraint (used by C19)
+        pm = PointMass(1.5, q0=np.array([0.6, 0.2, -0.5]), u0=np.zeros(3), name="pm")
+        bodies = [pm]
+        gravity(pm, 1.5)
+        rest += _spring(system, pm, [0.0, 0.0, 0.0], [0.0, 0.0, 0.0], 80.0, 0.6)
     elif scen == "free_top":
         # torque-free rigid body, no constraint (used by C19)
         b = _rb(1.0, (0.05, 0.08, 0.13), [0.0, 0.0, 0.0], pg, "top")
